@@ -499,6 +499,24 @@ def make_replay(rep):
                 detail.append('%s: %s' % ('release' if release else 'dev', payload[0]))
                 ok_all = ok_all and rep_ok
             return ok_all, '; '.join(detail)
+        if c['kind'] == 'relpath-link':
+            from lib import prep as _prep
+            root = os.path.join(_prep.SCRATCH_ROOT, 'rootl-%d' % os.getpid())
+            try:
+                os.makedirs(os.path.join(root, 'c/w/a/b'), exist_ok=True)
+                if not os.path.lexists(os.path.join(root, 'c/w/link')):
+                    os.symlink('a/b', os.path.join(root, 'c/w/link'))
+                payload, raw, rc = rep.run('state', 'relpath_batch', ['%s %s %s' % (hexs(CWD), w['t_hex'], hexs(CWD))],
+                                           env={'VERIF_REPLAY_ROOT': root})
+            finally:
+                import shutil
+                shutil.rmtree(root, ignore_errors=True)
+            if len(payload) != 1 or payload[0].split(' ')[1] != 'OK':
+                return False, 'native run failed: ' + raw[-300:]
+            got = bytes.fromhex(payload[0].split(' ')[2]) if payload[0].split(' ')[2] != '-' else b''
+            t = bytes.fromhex(w['t_hex'])
+            want = w['want_dir'].encode() + b'/' + t.rsplit(b'/', 1)[-1]
+            return got != want, 'compiled relpath(%r) with link -> a/b: key %r, the file is %r' % (t, got, want)
         if c['kind'] == 'relpath-eio':
             import subprocess
             from lib import prep as _prep
@@ -609,6 +627,76 @@ def py_relpath(t, base):
     return b'/'.join([b'..'] * (len(B) - n) + T[n:])
 
 
+
+# --------------------------------------------------------------------------------- a symbolic link to a directory in the path
+def symlinked_dir_obligation():
+    """`link -> a/b` in the working directory: every spelling of a file reached through the link - also with `..` AFTER the link,
+    where lexical cleaning and the file system disagree - gets the key of the file the kernel would open"""
+    st = {}
+    LINKS = {'/c/w/link': '/c/w/a/b'}
+    SPELL = [(b'link/', 'a/b'), (b'link/../', 'a'), (b'/c/w/link/../', 'a'), (b'a/b/../', 'a'), (b'link/./', 'a/b'), (b'./link/../', 'a'),
+             (b'a/../link/', 'a/b')]
+
+    def physical(p):
+        comps = []
+        for c in p.split('/'):
+            if c in ('', '.'):
+                continue
+            if c == '..':
+                if comps:
+                    comps.pop()
+                continue
+            comps.append(c)
+            cur = '/' + '/'.join(comps)
+            if cur in LINKS:
+                comps = [x for x in LINKS[cur].split('/') if x]
+        return '/' + '/'.join(comps)
+
+    class W(PathWorld):
+        def canonicalize(self, eng, p):
+            items = deref_all(p).items
+            if not all(isinstance(x, int) for x in items):
+                raise Unsupported('canonicalize of a symbolic directory name')
+            s = bytes(items).decode()
+            if not s.startswith('/'):
+                s = CWD.decode() + '/' + s
+            eng.event('canonicalize', path=s, result=physical(s))
+            return ok(Vec(list(physical(s).encode()), 'PathBuf'))
+
+    def run():
+        eng.world = W(False)
+        k = eng.choose(len(SPELL), 'spelling')
+        name = sym_bytes(2, 'f')
+        for b in name:
+            eng.assume(z3.And(b != 47, b != 46, b != 0, z3.ULT(b, 0x80)))
+        t = list(SPELL[k][0]) + name
+        st.update(t=t, k=k, name=name)
+        return eng.call('relpath', [Bytes(t, 'Path'), Bytes(list(CWD), 'Path')], None, None)
+
+    def judge(outcome, val, path):
+        k = st['k']
+        wit_t = concretize(path, st['t'])
+        if outcome == 'panic':
+            return {'role': 'relpath-symlink-panic', 'kind': 'relpath-link', 'what': 'relpath panics: ' + val.msg,
+                    'witness': {'t_hex': hexs(wit_t), 'spelling': SPELL[k][0].decode()}}
+        if outcome != 'ok' or val.var != 'Ok':
+            return None
+        chk.goal('relpath: `..` after a symbolic link to a directory', b'link/../' in SPELL[k][0])
+        want = list(SPELL[k][1].encode()) + [47] + st['name']
+        got = list(deref_all(val.f[0]).items)
+        if holds(neq_formula(got, want)):
+            return None
+        w = concretize(path, st['t'] + got)
+        n = len(st['t'])
+        return {'role': 'relpath-through-symlink', 'kind': 'relpath-link',
+                'what': 'with link -> a/b, the spelling %r gets the key %r; the file it names is %s/<name>' % (
+                    bytes(w[:n]) if w else SPELL[k][0], bytes(w[n:]) if w else '?', SPELL[k][1]),
+                'witness': {'t_hex': hexs(w[:n] if w else wit_t), 'spelling': SPELL[k][0].decode(), 'want_dir': SPELL[k][1]}}
+
+    chk.explore('relpath: spellings through a symbolic link to a directory', run, judge)
+    eng.world = PathWorld(False)
+
+
 # --------------------------------------------------------------------------------- main
 rep = Replayer(log)
 from lib.scenario import Scenario
@@ -622,6 +710,7 @@ try:
     for n in range(0, N_REL + 1 if not os.environ.get('VERIF_OBL') else 0):
         relpath_obligations(n, False)
     canonicalize_error_obligation()
+    symlinked_dir_obligation()
     if chk.thorough():
         for n in range(0, min(N_REL, 5) + 1):
             relpath_obligations(n, True)
